@@ -22,6 +22,7 @@ def run(ctx):
     pepsolve.r_order(ctx)        # the multipliers of every successful solve are captured, whatever the mode: none survives from an earlier solve
     state.r_memo(ctx)
     state.r_memo_new(ctx)
+    state.r_process_memo(ctx, rule="R-MEMO", memo_only=True)   # results kept by functools decorators are not refreshed by a new solve
     formula.r_regen(ctx)
     formula.r_hook_memo(ctx)     # no hook answers from what it stored at an earlier solve
     translate.r_leafreg(ctx)     # every registered leaf is re-assigned, unconditionally, after each successful solve
